@@ -9,7 +9,7 @@ import struct as _struct
 import z3
 
 from .sym import as_int
-from .values import TInt, VInt, VReal, VSeq, VStr, VTuple
+from .values import TInt, VInt, VReal, VSeq, VStr, VTuple, fresh_name
 
 STRUCT_CODES = {"B": (1, False), "I": (4, False), "i": (4, True), "Q": (8, False), "q": (8, True), "L": (8, False)}
 
@@ -38,8 +38,202 @@ def unpack_bytes(ex, st, fmt, data, line):
     return VTuple([VInt(v)])
 
 
+f32bits = z3.Function("f32bits", z3.RealSort(), z3.IntSort())     # IEEE-754 binary32 bit pattern of f32(x)
+f32val = z3.Function("f32val", z3.IntSort(), z3.RealSort())       # value of a bit pattern
+
+
+def fmt_layout(fmt):
+    """[(code, offset, width)] and total size for a struct format, native alignment of this host
+    (the host of the checks is the host of the library: x86-64 little endian)"""
+    order = "<"
+    body = fmt
+    if fmt and fmt[0] in "<>=!@":
+        order = fmt[0]
+        body = fmt[1:]
+    prefix = "" if order == "@" or fmt[0] not in "<>=!@" else order
+    fields = []
+    for i, code in enumerate(body):
+        upto = _struct.calcsize(prefix + body[: i + 1])
+        w = _struct.calcsize("=" + code)
+        fields.append((code, upto - w, w))
+    big = order in (">", "!")
+    return fields, _struct.calcsize(fmt), big
+
+
+digit = z3.Function("digit", z3.IntSort(), z3.IntSort(), z3.IntSort())   # digit(x, i) = (x div 256**i) mod 256
+
+
+def digits(v, width, big):
+    """base-256 digits of the non-negative integer term v (function `digit`, see digit_axioms)"""
+    ds = [digit(v, z3.IntVal(i)) for i in range(width)]
+    return list(reversed(ds)) if big else ds
+
+
+def digit_axioms():
+    """facts about base-256 digits.  The 8-digit sum identity is beyond z3's linear integer solver (60 s
+    `unknown`), but immediate over bit-vectors; `prove_digit_lemmas` discharges each width there on every run."""
+    x, i = z3.Int("x!dg"), z3.Int("i!dg")
+    out = [z3.ForAll([x, i], z3.And(digit(x, i) >= 0, digit(x, i) <= 255), patterns=[digit(x, i)])]
+    for w in (1, 2, 4, 8):
+        body = z3.Implies(z3.And(x >= 0, x < 256 ** w),
+                          z3.Sum([digit(x, z3.IntVal(k)) * 256 ** k for k in range(w)]) == x)
+        pats = [digit(x, z3.IntVal(0))] if w == 1 else [z3.MultiPattern(digit(x, z3.IntVal(0)), digit(x, z3.IntVal(w - 1)))]
+        out.append(z3.ForAll([x], body, patterns=pats))
+    return out
+
+
+def prove_digit_lemmas():
+    """bit-vector proofs of the digit-sum identities (width 1,2,4,8): returns list of (width, result)"""
+    res = []
+    for w in (1, 2, 4, 8):
+        xb = z3.BitVec("xb", 8 * w)
+        ds = [z3.ZeroExt(8 * w - 8, z3.Extract(8 * k + 7, 8 * k, xb)) if w > 1 else xb for k in range(w)]
+        tot = ds[0]
+        for k in range(1, w):
+            tot = tot + (ds[k] << (8 * k))
+        s = z3.Solver()
+        s.add(tot != xb)
+        res.append((w, str(s.check())))
+    return res
+
+
+def struct_pack(ex, st, fmt, args, line):
+    from .lib_models import f32
+    fields, size, big = fmt_layout(fmt)
+    if len(args) != len(fields):
+        raise Unsupported("struct.pack: wrong number of values")
+    ex.lib_used.add(f"struct.Struct({fmt!r}): field offsets/sizes taken from the running CPython "
+                    f"(size {size}); integers as explicit base-256 digits, out-of-range values raise struct.error")
+    arr = z3.K(z3.IntSort(), z3.IntVal(0))
+    for (code, off, w), v in zip(fields, args):
+        if code == "f":
+            ex.lib_used.add("struct 'f' field: IEEE binary32 bit pattern f32bits(x) with f32val(f32bits(x)) == f32(x)")
+            from .sym import as_real
+            bits = f32bits(as_real(v))
+            st.pc.append(z3.And(bits >= 0, bits < 2 ** 32))
+            val = bits
+        else:
+            x = as_int(v)
+            signed = code in "iqlh"
+            lo, hi = (-(2 ** (8 * w - 1)), 2 ** (8 * w - 1) - 1) if signed else (0, 2 ** (8 * w) - 1)
+            ex.oblige(st, f"L{line}.struct_pack_{code}_in_range", z3.And(x >= lo, x <= hi))
+            val = z3.If(x < 0, x + 2 ** (8 * w), x) if signed else x
+        for i, d in enumerate(digits(val, w, big)):
+            arr = z3.Store(arr, off + i, d)
+    return VSeq([arr], z3.IntVal(size), TInt(0, 255), "bytes")
+
+
+def struct_unpack(ex, st, fmt, data, line, exact=True):
+    fields, size, big = fmt_layout(fmt)
+    if not isinstance(data, VSeq):
+        raise Unsupported("struct.unpack of a non-bytes value")
+    ex.lib_used.add(f"struct.Struct({fmt!r}).unpack: little/big-endian integer of the field bytes "
+                    f"(size {size}, offsets from the running CPython)")
+    if exact:
+        ex.oblige(st, f"L{line}.struct_unpack_exact_size", data.ln == size)
+    else:
+        ex.oblige(st, f"L{line}.struct_unpack_enough_bytes", data.ln >= size)
+    a = data.comps[0]
+    out = []
+    for code, off, w in fields:
+        raw = be_uint(a, off, w) if big else le_uint(a, off, w)
+        if code == "f":
+            out.append(VReal(f32val(raw)))
+        elif code in "iqlh":
+            out.append(VInt(z3.If(raw >= 2 ** (8 * w - 1), raw - 2 ** (8 * w), raw)))
+        else:
+            out.append(VInt(raw))
+    return VTuple(out)
+
+
 def struct_method(ex, st, recv, name, args, node):
-    raise Unsupported(f"Struct.{name} (stream model)")
+    line = ex.cur_line
+    if name == "pack":
+        return struct_pack(ex, st, recv.fmt, args, line)
+    if name == "unpack":
+        return struct_unpack(ex, st, recv.fmt, args[0], line, exact=True)
+    if name == "unpack_from":
+        return struct_unpack(ex, st, recv.fmt, args[0], line, exact=False)
+    raise Unsupported(f"Struct.{name}")
+
+
+def fileptr_apply_pending(ex, st, loc, fp):
+    """move the buffered write (if any) into the mapped file"""
+    from .values import VFilePtr
+    owner = loc[1]
+    target = ("vfield", owner, "_bloom")
+    cur = ex.read(st, target)
+    j = z3.Int(fresh_name("fw"))
+    ex.oblige(st, f"L{ex.cur_line}.file_write_within_file",
+              z3.Implies(fp.haspend, z3.And(fp.ppos >= 0, fp.ppos + fp.plen <= cur.ln)))
+    newarr = z3.Lambda([j], z3.If(z3.And(fp.haspend, fp.ppos <= j, j < fp.ppos + fp.plen),
+                                  fp.parr[j - fp.ppos], cur.comps[0][j]))
+    ex.write(st, target, VSeq([newarr], cur.ln, cur.et, cur.kind), structural=False)
+    return VFilePtr(fp.isnone, fp.pos, fp.closed, z3.BoolVal(False), fp.ppos, fp.plen, fp.parr)
+
+
+def fileptr_method(ex, st, loc, fp, name, args):
+    """buffered read/write file object on the file mapped by the owner's `_bloom` (BufferedRandom):
+    write() goes to a user-space buffer, flush()/seek()/close() move it into the file"""
+    from .values import VFilePtr, VNone
+    ex.lib_used.add("file object (open(path, 'r+b')) on the mmapped file: write() is buffered in user space until "
+                    "flush()/seek()/close(); a flushed write of <= 8 bytes becomes visible atomically; bytes in the "
+                    "page cache survive a killed process (power loss / kernel crash out of scope)")
+    ex.oblige(st, f"L{ex.cur_line}.file_pointer_open", z3.And(z3.Not(fp.isnone), z3.Not(fp.closed)))
+    if loc[0] != "vfield":
+        raise Unsupported("file object not held in an object field")
+    if name == "seek":
+        fp = fileptr_apply_pending(ex, st, loc, fp)
+        off = as_int(args[0])
+        target = ex.read(st, ("vfield", loc[1], "_bloom"))
+        whence = args[1] if len(args) > 1 else None
+        from .values import VBuiltin
+        if isinstance(whence, VBuiltin) and whence.name.endswith("SEEK_END"):
+            pos = target.ln + off
+        elif whence is None:
+            pos = off
+        else:
+            raise Unsupported("seek whence")
+        ex.oblige(st, f"L{ex.cur_line}.seek_position_nonneg", pos >= 0)
+        ex.write(st, loc, VFilePtr(fp.isnone, pos, fp.closed, fp.haspend, fp.ppos, fp.plen, fp.parr))
+        return VNone()
+    if name == "write":
+        fp = fileptr_apply_pending(ex, st, loc, fp)
+        data = args[0]
+        if not isinstance(data, VSeq):
+            raise Unsupported("file.write of a non-bytes value")
+        ex.write(st, loc, VFilePtr(fp.isnone, fp.pos + data.ln, fp.closed, z3.BoolVal(True), fp.pos, data.ln,
+                                   data.comps[0]))
+        return VInt(data.ln)
+    if name == "flush":
+        ex.write(st, loc, fileptr_apply_pending(ex, st, loc, fp))
+        return VNone()
+    if name == "close":
+        fp = fileptr_apply_pending(ex, st, loc, fp)
+        ex.write(st, loc, VFilePtr(fp.isnone, fp.pos, z3.BoolVal(True), fp.haspend, fp.ppos, fp.plen, fp.parr))
+        return VNone()
+    raise Unsupported(f"file.{name}")
+
+
+def real_axioms():
+    from .lib_models import f32, r_log
+    x = z3.Real("x!ra")
+    y = z3.Real("y!ra")
+    b = z3.Int("b!ra")
+    return [
+        (("f32",), z3.ForAll([x], f32(f32(x)) == f32(x), patterns=[f32(f32(x))])),
+        (("f32val", "f32bits"), z3.ForAll([x], f32val(f32bits(x)) == f32(x), patterns=[f32bits(x)])),
+        (("f32val",), z3.ForAll([b], f32(f32val(b)) == f32val(b), patterns=[f32val(b)])),
+        (("f32val", "f32bits"), z3.ForAll([b], z3.Implies(z3.And(0 <= b, b < 2 ** 32), f32bits(f32val(b)) == b),
+                                          patterns=[f32val(b)])),
+        (("r_log",), z3.ForAll([x], z3.Implies(z3.And(x > 0, x < 1), r_log(x) < 0), patterns=[r_log(x)])),
+        (("r_log",), r_log(z3.RealVal(1)) == 0),
+        (("r_log",), z3.ForAll([x], z3.Implies(x > 1, r_log(x) > 0), patterns=[r_log(x)])),
+        # float32 narrowing is monotone and fixes 0 and 1
+        (("f32",), z3.ForAll([x], z3.And(z3.Implies(x <= 1, f32(x) <= 1), z3.Implies(x >= 1, f32(x) >= 1),
+                                         z3.Implies(x >= 0, f32(x) >= 0), z3.Implies(x <= 0, f32(x) <= 0)),
+                             patterns=[f32(x)])),
+    ]
 
 
 def stream_method(ex, st, recv, name, args, node):
